@@ -7,6 +7,8 @@
 //!   [1 rpc variant k header...]           one call of RPC `rpc` (0..21) in request shape `variant`,
 //!                                         writing value k where the RPC writes; header as below
 //!   [2]                                   dump: value of the signal each writing RPC writes to
+//!   [4 rpc variant k header...]           the call of [1 ...] made twice with ONE token: now, and again after the
+//!                                         token's expiry instant (header exp = seconds from now, 2) has passed
 //! header ::= 0 | 1 alg key sig claims aud exp scope scheme | 2 | 3
 //! output: per call [code panics] (gRPC status code; panics counted by the panic hook so far),
 //!         per dump [700 rpc value...]
@@ -494,6 +496,31 @@ pub fn run_case(case: &[Vec<Tok>]) -> Vec<Vec<Tok>> {
                     out.push(vec![code, PANICS.load(Ordering::SeqCst) as Tok]);
                 }
                 Some(2) => out.extend(srv.dump().await),
+                Some(4) => {
+                    // one token (its header text built once, expiring `exp` seconds from now), used now and used again
+                    // after its expiry instant has passed
+                    let (Some(rpc), Some(variant), Some(k)) = (c.next(), c.next(), c.next()) else {
+                        out.push(vec![-1]);
+                        continue;
+                    };
+                    let exp_in = l.get(10).copied().unwrap_or(2).max(1) as u64;
+                    let Some(hdr) = auth_header(&mut c) else {
+                        out.push(vec![-1]);
+                        continue;
+                    };
+                    let built = std::time::Instant::now();
+                    for round in 0..2 {
+                        if round == 1 {
+                            let wait = Duration::from_millis(exp_in * 1000 + 1300).saturating_sub(built.elapsed());
+                            tokio::time::sleep(wait).await;
+                        }
+                        let code = match tokio::time::timeout(Duration::from_secs(5), call(&srv.channel, rpc, variant, k, &hdr, &srv.ids)).await {
+                            Ok(c) => c,
+                            Err(_) => -88,
+                        };
+                        out.push(vec![code, PANICS.load(Ordering::SeqCst) as Tok]);
+                    }
+                }
                 Some(3) => {
                     // probe: the broker still serves a write, a read of it, and a metadata listing
                     let k = c.next().unwrap_or(1);
